@@ -9,12 +9,14 @@ import (
 // code go through these functions. Under the simulator a channel operation is
 // a scheduling point and a goroutine that would block is parked until the
 // operation can proceed; outside a simulation they are the plain operations.
-// (select statements are not rewritten; the instrumenter reports them.)
+// A blocking select statement is rewritten into a call of Select (below).
 
 type chanInfo struct {
 	recvWaiting int
 	handoff     []any // unbuffered channels: values committed by a sender to a parked receiver
 	closed      bool
+	// selectors parked with a receive / a send case on this unbuffered channel
+	selRecv, selSend []*selReg
 }
 
 func (s *Sim) chanOf(ch any) *chanInfo {
@@ -52,11 +54,16 @@ func Send[T any](ch chan<- T, v T) {
 		s.logf("g%d sent", s.cur.id)
 		return
 	}
-	s.park("chan.send", func() bool { return !ci.closed && ci.recvWaiting <= len(ci.handoff) })
+	s.park("chan.send", func() bool { return !ci.closed && ci.recvWaiting <= len(ci.handoff) && len(ci.selRecv) == 0 })
 	if ci.closed {
 		panic("send on closed channel")
 	}
-	ci.handoff = append(ci.handoff, v)
+	if ci.recvWaiting > len(ci.handoff) {
+		ci.handoff = append(ci.handoff, v)
+	} else {
+		// a goroutine parked in a select with a receive case on this channel takes the value
+		s.fire(ci.selRecv[0], v, true)
+	}
 	s.logf("g%d sent", s.cur.id)
 }
 
@@ -89,7 +96,7 @@ func Recv2[T any](ch <-chan T) (T, bool) {
 	if len(ci.handoff) == 0 {
 		return zero, false
 	}
-	v := ci.handoff[0].(T)
+	v, _ := ci.handoff[0].(T) // (a nil interface value is the zero T)
 	ci.handoff = ci.handoff[1:]
 	s.logf("g%d received", s.cur.id)
 	return v, true
@@ -116,6 +123,212 @@ func Close[T any](ch chan<- T) {
 	close(ch)
 	s.logf("g%d close", s.cur.id)
 	s.park("chan.close", nil)
+}
+
+// ---- select ----------------------------------------------------------------
+
+// SelCase is one communication clause of a select statement.
+type SelCase struct {
+	send bool
+	ch   reflect.Value
+	val  reflect.Value
+}
+
+// SelRecv is the clause `case [v[, ok] :=] <-ch`.
+func SelRecv[T any](ch <-chan T) SelCase { return SelCase{ch: reflect.ValueOf(ch)} }
+
+// SelSend is the clause `case ch <- v`.
+func SelSend[T any](ch chan<- T, v T) SelCase {
+	return SelCase{send: true, ch: reflect.ValueOf(ch), val: reflect.ValueOf(&v).Elem()}
+}
+
+// SelResult tells which clause proceeded (-1: the default clause) and, for a
+// receive, what was received.
+type SelResult struct {
+	Index int
+	Value any
+	Ok    bool
+}
+
+// SelValue returns the value received by the chosen clause with its type.
+func SelValue[T any](r SelResult, ch <-chan T) T {
+	v, _ := r.Value.(T)
+	return v
+}
+
+type selWaiter struct {
+	fired bool
+	res   SelResult
+	regs  []*chanInfo
+}
+
+type selReg struct {
+	w     *selWaiter
+	index int
+	val   any // send clauses: the value offered
+}
+
+// fire completes the select of a parked goroutine through clause r.
+func (s *Sim) fire(r *selReg, v any, ok bool) {
+	r.w.fired = true
+	r.w.res = SelResult{Index: r.index, Value: v, Ok: ok}
+	s.unregister(r.w)
+}
+
+func (s *Sim) unregister(w *selWaiter) {
+	drop := func(rs []*selReg) []*selReg {
+		var kept []*selReg
+		for _, r := range rs {
+			if r.w != w {
+				kept = append(kept, r)
+			}
+		}
+		return kept
+	}
+	for _, ci := range w.regs {
+		ci.selRecv, ci.selSend = drop(ci.selRecv), drop(ci.selSend)
+	}
+	w.regs = nil
+}
+
+func others(rs []*selReg, w *selWaiter) *selReg {
+	for _, r := range rs {
+		if r.w != w {
+			return r
+		}
+	}
+	return nil
+}
+
+// Select replaces a select statement: it blocks until one clause can proceed
+// (or returns -1 at once when the statement has a default clause), performs
+// that communication and tells which one it was. When several clauses can
+// proceed the scheduler decides (Go chooses at random).
+func Select(hasDefault bool, cases ...SelCase) SelResult {
+	s := active
+	if s == nil {
+		rc := make([]reflect.SelectCase, 0, len(cases)+1)
+		for _, c := range cases {
+			if c.send {
+				rc = append(rc, reflect.SelectCase{Dir: reflect.SelectSend, Chan: c.ch, Send: c.val})
+			} else {
+				rc = append(rc, reflect.SelectCase{Dir: reflect.SelectRecv, Chan: c.ch})
+			}
+		}
+		if hasDefault {
+			rc = append(rc, reflect.SelectCase{Dir: reflect.SelectDefault})
+		}
+		i, v, ok := reflect.Select(rc)
+		if i == len(cases) {
+			return SelResult{Index: -1}
+		}
+		if cases[i].send || !ok {
+			return SelResult{Index: i}
+		}
+		return SelResult{Index: i, Value: v.Interface(), Ok: true}
+	}
+	w := &selWaiter{}
+	info := func(c SelCase) *chanInfo { return s.chanOf(c.ch.Interface()) }
+	ready := func() []int {
+		var out []int
+		for i, c := range cases {
+			if c.ch.IsNil() {
+				continue // a nil channel never proceeds
+			}
+			ci := info(c)
+			switch {
+			case ci.closed:
+				out = append(out, i) // receive: zero value; send: panics, as in Go
+			case c.send && c.ch.Cap() > 0:
+				if c.ch.Len() < c.ch.Cap() {
+					out = append(out, i)
+				}
+			case c.send:
+				if ci.recvWaiting > len(ci.handoff) || others(ci.selRecv, w) != nil {
+					out = append(out, i)
+				}
+			case c.ch.Cap() > 0:
+				if c.ch.Len() > 0 {
+					out = append(out, i)
+				}
+			default:
+				if len(ci.handoff) > 0 || others(ci.selSend, w) != nil {
+					out = append(out, i)
+				}
+			}
+		}
+		return out
+	}
+	s.logf("g%d select?", s.cur.id)
+	s.park("select", nil)
+	rd := ready()
+	if len(rd) == 0 {
+		if hasDefault {
+			s.logf("g%d select default", s.cur.id)
+			return SelResult{Index: -1}
+		}
+		// park, visible to the other side of every unbuffered channel
+		for i, c := range cases {
+			if c.ch.IsNil() || c.ch.Cap() > 0 {
+				continue
+			}
+			ci := info(c)
+			r := &selReg{w: w, index: i}
+			if c.send {
+				r.val = c.val.Interface()
+				ci.selSend = append(ci.selSend, r)
+			} else {
+				ci.selRecv = append(ci.selRecv, r)
+			}
+			w.regs = append(w.regs, ci)
+		}
+		s.park("select", func() bool { return !w.fired && len(ready()) == 0 })
+		if w.fired {
+			s.logf("g%d select -> %d", s.cur.id, w.res.Index)
+			return w.res
+		}
+		s.unregister(w)
+		rd = ready()
+	}
+	i := rd[0]
+	if len(rd) > 1 && s.Pick != nil {
+		i = s.Pick("select", s.cur.id, rd)
+	}
+	c := cases[i]
+	ci := info(c)
+	s.logf("g%d select -> %d", s.cur.id, i)
+	switch {
+	case c.send && ci.closed:
+		panic("send on closed channel")
+	case c.send && c.ch.Cap() > 0:
+		c.ch.Send(c.val)
+		return SelResult{Index: i}
+	case c.send:
+		if ci.recvWaiting > len(ci.handoff) {
+			ci.handoff = append(ci.handoff, c.val.Interface())
+		} else {
+			s.fire(others(ci.selRecv, w), c.val.Interface(), true)
+		}
+		return SelResult{Index: i}
+	case c.ch.Cap() > 0:
+		if c.ch.Len() == 0 {
+			return SelResult{Index: i} // closed and drained
+		}
+		v, ok := c.ch.Recv()
+		return SelResult{Index: i, Value: v.Interface(), Ok: ok}
+	default:
+		if len(ci.handoff) > 0 {
+			v := ci.handoff[0]
+			ci.handoff = ci.handoff[1:]
+			return SelResult{Index: i, Value: v, Ok: true}
+		}
+		if r := others(ci.selSend, w); r != nil {
+			v := r.val
+			s.fire(r, nil, false)
+			return SelResult{Index: i, Value: v, Ok: true}
+		}
+		return SelResult{Index: i} // closed
+	}
 }
 
 var _ = fmt.Sprint
